@@ -167,6 +167,37 @@ def greedy_family():
     return out
 
 
+def level_shape_family():
+    """Within-word expressions with the same automaton shape and the same number of || levels but
+    the || placed differently (`P(a | b || c)` against `Q(d || e | f)`): whatever table is shared
+    between same-shaped automata must not include the per-level candidate tables.
+    -> list of (statements, probes, forced queries)"""
+    def lit(t):
+        return ('lit', t, None)
+    out = []
+
+    def word(p, groups):            # P(g1 || g2 || ...), each group an alternative of values
+        branches = [lit(g[0]) if len(g) == 1 else ('alt', [lit(v) for v in g]) for g in groups]
+        return ('sub', [lit(p), branches[0] if len(branches) == 1 else ('fb', branches)])
+
+    def add(words):                 # words: list of (prefix, groups)
+        for order in (words, list(reversed(words))):
+            e = ('alt', [('seq', [word(p, gs), lit('n%d' % i)]) for i, (p, gs) in enumerate(order)])
+            qs = [([], '')]
+            for p, gs in order:
+                qs.append(([], p))
+                for g in gs:
+                    for v in g:
+                        qs.append(([], p + v[:1]))
+                        qs.append(([p + v], ''))
+            out.append(([('call', 'cmd', e)], Probes(), qs))
+
+    add([('--x=', [['a', 'b'], ['cc']]), ('--y=', [['d'], ['ee', 'f']])])
+    add([('--x=', [['a'], ['b'], ['cc', 'g']]), ('--y=', [['d', 'h'], ['ee'], ['f']]), ('--z=', [['i'], ['j', 'k'], ['l']])])
+    add([('p:', [['a', 'b', 'c']]), ('q:', [['d'], ['e', 'f']]), ('r:', [['g', 'h'], ['i']])])
+    return out
+
+
 def descr_family():
     """The same literal text carrying different descriptions at DIFFERENT points of the grammar
     (never two labels at one point, so inside C01's domain): the emitted literal list is keyed by
